@@ -51,13 +51,24 @@ def main():
 
         scenario = json.loads(sys.argv[3])
         root = runner.fresh_dir("seq")
-        cats = c05.make_caches(root, 2, seed)
+        # two working directories holding different catalogs under the same relative names
+        for sub in ("a", "b"):
+            os.makedirs(os.path.join(root, sub))
+            c05.make_caches(os.path.join(root, sub), 2, seed)
+        # directory b: reference sample and its randoms exchanged, so that the same relative names mean other data
+        os.rename(os.path.join(root, "b", "R"), os.path.join(root, "b", "tmp"))
+        os.rename(os.path.join(root, "b", "RR"), os.path.join(root, "b", "R"))
+        os.rename(os.path.join(root, "b", "tmp"), os.path.join(root, "b", "RR"))
         edges = {"A": [0.1, 0.2, 0.3, 0.4], "B": [0.1, 0.25, 0.3, 0.4]}
         last = None
-        for name, W in scenario:
+        for item in scenario:
+            name, W = item[0], item[1]
+            os.chdir(os.path.join(root, item[2] if len(item) > 2 else "a"))
+            cats = {n: yaw.Catalog(n) for n in ("R", "U", "RR")}  # relative cache paths
             yawx.sequential(W)
             conf = yaw.Configuration.create(rmin=[0.3, 0.9], rmax=[1.1, 3.4], unit="deg", edges=edges[name])
             last = c05.obs_corrfuncs(yaw.crosscorrelate(conf, cats["R"], cats["U"], ref_rand=cats["RR"], unk_rand=cats["U"]))
+        os.chdir("/")
         runner.cleanup_scratch()
         print(json.dumps(dict(digest=last)))
         return
